@@ -4,14 +4,25 @@
 (* boundary, string literals with every escape and UTF-8 class, valid and  *)
 (* invalid).  Same machine as the character-level generator.               *)
 EXTENDS JsonText, Json, C02Tokens
-CONSTANTS MaxTok, Small
+CONSTANTS MaxTok, Small, Members
 VARIABLES txt, st, ntok
 
+\* "members" mode: object bodies as sequences of whole members (duplicate names with every kind of value, in every
+\* position); the case text is the body wrapped as an object, and as an object inside an array
+MemberAtoms == { k \o <<58>> \o v : k \in { <<34,97,34>>, <<34,98,34>> },
+                                    v \in { <<49>>, <<91,50,93>>, <<123,34,99,34,58,51,125>>, <<34,115,34>>, <<110,117,108,108>>, <<123,125>>, <<91,93>>, <<49,46,53>> } }
 Init == txt = <<>> /\ st = Init0 /\ ntok = 0
 Next == /\ st.m # "dead" /\ ntok < MaxTok
-        /\ \E t \in (IF Small THEN SmallTokens ELSE Tokens) : txt' = txt \o t /\ st' = Run(st, t, 1) /\ ntok' = ntok + 1
+        /\ IF Members
+           THEN \E t \in MemberAtoms : txt' = (IF txt = <<>> THEN t ELSE txt \o <<44>> \o t) /\ st' = st /\ ntok' = ntok + 1
+           ELSE \E t \in (IF Small THEN SmallTokens ELSE Tokens) : txt' = txt \o t /\ st' = Run(st, t, 1) /\ ntok' = ntok + 1
 
 Case == [t |-> txt, acc |-> AcceptAtEof(st), uc |-> st.uc, ut |-> st.ut, tc |-> st.tc, dc |-> st.dc,
          dep |-> st.dep, v |-> IF AcceptAtEof(st) THEN ValueOf(ResultAtEof(st)) ELSE <<"none">>]
-Emit == PrintT(ToJson(Case))
+CaseOf(tx, s) == [t |-> tx, acc |-> AcceptAtEof(s), uc |-> s.uc, ut |-> s.ut, tc |-> s.tc, dc |-> s.dc,
+                  dep |-> s.dep, v |-> IF AcceptAtEof(s) THEN ValueOf(ResultAtEof(s)) ELSE <<"none">>]
+Emit == IF Members
+        THEN LET o == <<123>> \o txt \o <<125>>  a == <<91>> \o o \o <<44, 48, 93>> IN
+             PrintT(ToJson(CaseOf(o, RunText(o)))) /\ PrintT(ToJson(CaseOf(a, RunText(a))))
+        ELSE PrintT(ToJson(Case))
 =============================================================================
